@@ -51,6 +51,9 @@ def run(rep, tier, seed, replay=None):
     if not replay:
         from . import _taffytree
         _taffytree.tree_k(rep, 'C01', binp, seed + 606, 5000 if (tier != 'quick' or changed) else 600, family=0)
+        if tier != 'quick':
+            # larger trees (<= 24 nodes; the quick tier needs no bound for speed, this is extra coverage)
+            _taffytree.tree_k(rep, 'C01', binp, seed + 707, 1500, family=0, maxnodes=24, key='taffytree_large')
     # ---- search
     n = 600 if tier == 'quick' and not rep.broken else 6000
     if replay:
